@@ -6130,6 +6130,11 @@ class CodegenCtx:
             return self._generate_condition_point_body(state, True)
         result = Outputter()
 
+        if state in self.dfa.accepting_states and state.transitions and all(x.error_handling for x in state.transitions):
+            # the parser has already finished; the leftover error transitions (e.g. of a trailing regex) do not apply to end
+            result.add(f"return {self.program_name.upper()}_DONE;")
+            return result.value()
+
         # Find all transitions that operate on End
         unconditional_end_transition = state[DFTransition.End]
 
